@@ -102,6 +102,8 @@ func (p *patch) unsafePatchPtr() error {
 func (p *patch) replaceFunc() error {
 	lock()
 	defer unlock()
+	verifHook("patch.replace.locked", p.originPtr, 0)
+	defer verifHook("patch.replace.unlocking", p.originPtr, 0)
 
 	if _, ok := patches[p.originPtr]; ok {
 		unpatchValue(p.originPtr)
